@@ -411,8 +411,8 @@ Proof.
     apply andb_true_iff in Hwf as [Hwf Hargs]. apply andb_true_iff in Hwf as [Hsym _].
     destruct args as [|a r].
     + cbn [print_term term_psexp]. apply render_sym; assumption.
-    + cbn [print_term term_psexp]. rewrite sexp_toks_cons_map. rewrite !append_assoc. cbn [append].
-      apply step_lp; [exact Hok|]. Show.
+    + cbn [print_term term_psexp]. rewrite sexp_toks_cons_map. rewrite !append_assoc. cbn [append app].
+      rewrite <- !app_assoc. cbn [app]. apply step_lp; [exact Hok|].
       apply render_sym; [exact Hsym| |].
       * cbn [map]. rewrite concat_empty_cons. rewrite !append_assoc. cbn [append]. apply delim_space.
       * apply (render_args term (print_term repaired env) (fun x => sexp_toks (term_psexp env x))); [|exact Hr].
@@ -424,9 +424,13 @@ Proof.
       assert (E : (if neg then "(/ (- " +++ num +++ ") " +++ den +++ ")" else "(/ " +++ num +++ " " +++ den +++ ")")
                   = "(/ " +++ (if neg then "(- " +++ num +++ ")" else num) +++ " " +++ den +++ ")").
       { destruct neg; rewrite ?append_assoc; reflexivity. }
-      rewrite E. clear E. cbn [sexp_toks flat_map sym_tok]. rewrite !append_assoc. cbn [append app].
-      apply step_lp; [exact Hok|]. apply render_slash. rewrite app_nil_r. rewrite <- !app_assoc.
-      apply render_num; [exact Hn|apply delim_space|]. cbn [append app]. apply step_white; [exact Hspace|].
+      rewrite E. clear E.
+      assert (T : sexp_toks (SList [sym_tok "/"; num_sexp neg num; SAtom (TNum den)]) ++ l
+                  = TLP :: TSym "/" :: sexp_toks (num_sexp neg num) ++ (TNum den :: TRP :: l)).
+      { cbn [sexp_toks flat_map sym_tok app]. rewrite <- !app_assoc. cbn [app]. reflexivity. }
+      rewrite T. clear T. rewrite !append_assoc. cbn [append].
+      apply step_lp; [exact Hok|]. apply render_slash.
+      apply render_num; [exact Hn|apply delim_space|]. cbn [append]. apply step_white; [exact Hspace|].
       apply render_digits; [exact Hden|apply delim_rp|]. apply step_rp; [exact Hok|exact Hr].
     + cbn [print_term term_psexp]. apply render_num; assumption.
 Qed.
@@ -480,6 +484,294 @@ Proof.
   - intros neg num den. destruct den; cbn [term_psexp]; unfold num_sexp; destruct neg; reflexivity.
 Qed.
 
+(* ---------------------------------------------------------------------------------------------
+   get-value: the echo of the request (repaired) *)
+Hypothesis Hbang : classify cfg "!" = TRes "!".
+Hypothesis Hlet : classify cfg "let" = TRes "let".
+
+Definition P (s : string) : string := protectName repaired s false.
+
+Definition as_text (n : string) (s : sort) : string := "(as " +++ P n +++ " " +++ sortToString repaired s +++ ")".
+
+Definition head_text (h : ahead) : string :=
+  match h with H_sym n => P n | H_as n s => as_text n s end.
+
+Fixpoint echo_text (a : ast) : string :=
+  match a with
+  | A_const t => t
+  | A_sym n => P n
+  | A_as n s => as_text n s
+  | A_app h args => "(" +++ head_text h +++ " " +++ join " " (map echo_text args) +++ ")"
+  | A_bang t n => "(! " +++ echo_text t +++ " :named " +++ P n +++ ")"
+  | A_let bs body =>
+    "(let (" +++ join " " (map (fun b => "(" +++ P (fst b) +++ " " +++ echo_text (snd b) +++ ")") bs)
+    +++ ") " +++ echo_text body +++ ")"
+  end.
+
+Section ast_induction.
+  Variable Q : ast -> Prop.
+  Hypothesis Hc : forall t, Q (A_const t).
+  Hypothesis Hs : forall n, Q (A_sym n).
+  Hypothesis Ha : forall n s, Q (A_as n s).
+  Hypothesis Hp : forall h args, Forall Q args -> Q (A_app h args).
+  Hypothesis Hb : forall t n, Q t -> Q (A_bang t n).
+  Hypothesis Hl : forall bs body, Forall (fun b => Q (snd b)) bs -> Q body -> Q (A_let bs body).
+  Fixpoint ast_ind2 (a : ast) : Q a :=
+    match a with
+    | A_const t => Hc t
+    | A_sym n => Hs n
+    | A_as n s => Ha n s
+    | A_app h args => Hp h args ((fix go (l : list ast) : Forall Q l :=
+                                    match l with [] => Forall_nil Q | x :: r => Forall_cons x (ast_ind2 x) (go r) end) args)
+    | A_bang t n => Hb t n (ast_ind2 t)
+    | A_let bs body => Hl bs body ((fix go (l : list (string * ast)) : Forall (fun b => Q (snd b)) l :=
+                                      match l with
+                                      | [] => Forall_nil _
+                                      | x :: r => Forall_cons x (ast_ind2 (snd x)) (go r)
+                                      end) bs) (ast_ind2 body)
+    end.
+End ast_induction.
+
+(* the writer of Quote.echo never dies in the repaired variant and writes echo_text *)
+Lemma o_sep_pure : forall (A : Type) (f : A -> out) (g : A -> string) sep l,
+  Forall (fun x => f x = (g x, false)) l -> o_sep sep (map f l) = (join sep (map g l), false).
+Proof.
+  induction l as [|x r IH]; intros H; [reflexivity|]. inversion H; subst.
+  destruct r as [|y r'].
+  - cbn [map o_sep join]. exact H2.
+  - change (o_sep sep (map f (x :: y :: r'))) with (o_seq (f x) (o_seq (o_str sep) (o_sep sep (map f (y :: r'))))).
+    rewrite H2, (IH H3). unfold o_seq, o_str. cbn [fst snd]. reflexivity.
+Qed.
+
+Lemma echo_is_text : forall a, echo repaired a = (echo_text a, false).
+Proof.
+  apply (ast_ind2 (fun a => echo repaired a = (echo_text a, false))).
+  - reflexivity.
+  - reflexivity.
+  - intros n s. reflexivity.
+  - intros h args IH. cbn [echo echo_text v_echo_raw repaired].
+    rewrite (o_sep_pure ast (echo repaired) echo_text " " args IH).
+    destruct h; unfold o_concat, o_seq, o_str; cbn [fst snd]; rewrite ?app_empty_r; reflexivity.
+  - intros t n IH. cbn [echo echo_text v_echo_raw repaired]. rewrite IH.
+    unfold o_concat, o_seq, o_str; cbn [fst snd]. rewrite ?app_empty_r, ?append_assoc. reflexivity.
+  - intros bs body IHb IH. cbn [echo echo_text v_echo_raw repaired]. rewrite IH.
+    match goal with |- context [o_sep " " (map ?f bs)] =>
+      rewrite (o_sep_pure (string * ast) f (fun b => "(" +++ P (fst b) +++ " " +++ echo_text (snd b) +++ ")") " " bs) end.
+    + unfold o_concat, o_seq, o_str; cbn [fst snd]. rewrite ?app_empty_r, ?append_assoc. reflexivity.
+    + eapply Forall_impl; [|exact IHb]. intros b Hb. cbn beta in Hb. rewrite Hb. unfold P.
+      unfold o_concat, o_seq, o_str; cbn [fst snd]. rewrite ?app_empty_r, ?append_assoc. reflexivity.
+Qed.
+
+(* well-formed requests *)
+Definition wf_const (t : string) : bool :=
+  all_digits t || match split_at c_dot t with Some (a, b) => all_digits a && all_digits b | None => false end.
+
+Definition wf_head (h : ahead) : bool :=
+  match h with
+  | H_sym n => str_forallb legal_char n
+  | H_as n s => str_forallb legal_char n && wf_sort s
+  end.
+
+Fixpoint wf_ast (a : ast) : bool :=
+  match a with
+  | A_const t => wf_const t
+  | A_sym n => str_forallb legal_char n
+  | A_as n s => str_forallb legal_char n && wf_sort s
+  | A_app h args => wf_head h && negb (match args with [] => true | _ => false end) && forallb wf_ast args
+  | A_bang t n => wf_ast t && str_forallb legal_char n
+  | A_let bs body =>
+    negb (match bs with [] => true | _ => false end)
+    && forallb (fun b => str_forallb legal_char (fst b) && wf_ast (snd b)) bs && wf_ast body
+  end.
+
+Definition as_psexp (n : string) (s : sort) : sexp := SList [SAtom (TRes "as"); SAtom (name_tok n); sort_psexp s].
+
+Definition headp (h : ahead) : sexp :=
+  match h with H_sym n => SAtom (name_tok n) | H_as n s => as_psexp n s end.
+
+Fixpoint ast_psexp (a : ast) : sexp :=
+  match a with
+  | A_const t => SAtom (const_tok t)
+  | A_sym n => SAtom (name_tok n)
+  | A_as n s => as_psexp n s
+  | A_app h args => SList (headp h :: map ast_psexp args)
+  | A_bang t n => SList [SAtom (TRes "!"); ast_psexp t; SAtom (TKey "named"); SAtom (name_tok n)]
+  | A_let bs body =>
+    SList [SAtom (TRes "let"); SList (map (fun b => SList [SAtom (name_tok (fst b)); ast_psexp (snd b)]) bs); ast_psexp body]
+  end.
+
+Lemma render_as : forall n s rest l, legal_symbol n -> wf_sort s = true -> lexes cfg rest l ->
+  lexes cfg (as_text n s +++ rest) (sexp_toks (as_psexp n s) ++ l).
+Proof.
+  intros n s rest l Hn Hs Hr. unfold as_text, as_psexp, P. cbn [sexp_toks flat_map app].
+  rewrite !append_assoc. cbn [append app]. apply step_lp; [exact Hok|]. rewrite <- Has.
+  match goal with |- lexes _ (String "a" (String "s" ?r)) _ => change (String "a" (String "s" r)) with ("as" +++ r) end.
+  apply step_word; [exact Hok|reflexivity| |reflexivity|apply delim_stops_sym; apply delim_space|].
+  { apply (str_forallb_impl is_simple_char); [exact Hsub|]. vm_compute. reflexivity. }
+  apply step_white; [exact Hspace|]. apply render_name; [exact Hn|apply delim_space|]. cbn [append].
+  apply step_white; [exact Hspace|]. rewrite app_nil_r. rewrite <- app_assoc.
+  apply render_sort; [exact Hs|apply delim_rp|]. cbn [app]. apply step_rp; [exact Hok|exact Hr].
+Qed.
+
+Lemma split_at_app : forall ch s a b, split_at ch s = Some (a, b) -> s = a +++ String ch b.
+Proof.
+  induction s as [|c r IH]; intros a b H; [discriminate|]. cbn [split_at] in H.
+  destruct (Ascii.eqb c ch) eqn:E.
+  - inversion H; subst. apply Ascii.eqb_eq in E. subst. reflexivity.
+  - destruct (split_at ch r) as [[a' b']|] eqn:E2; [|discriminate]. inversion H; subst.
+    cbn [append]. rewrite (IH a' b eq_refl). reflexivity.
+Qed.
+
+Lemma render_const : forall t rest l, wf_const t = true -> delim rest -> lexes cfg rest l ->
+  lexes cfg (t +++ rest) (const_tok t :: l).
+Proof.
+  intros t rest l H Hd Hr. unfold wf_const in H. unfold const_tok.
+  destruct (all_digits t) eqn:Ed.
+  - assert (Hnd : str_existsb (Ascii.eqb c_dot) t = false).
+    { unfold all_digits in Ed. apply andb_true_iff in Ed as [_ Ed]. clear -Ed.
+      induction t as [|c r IH]; [reflexivity|]. cbn [str_forallb str_existsb] in *.
+      apply andb_true_iff in Ed as [Hc Hr]. rewrite (IH Hr), orb_false_r.
+      destruct (Ascii.eqb c_dot c) eqn:E; [|reflexivity]. apply Ascii.eqb_eq in E. subst c. vm_compute in Hc. discriminate. }
+    rewrite Hnd. apply render_digits; assumption.
+  - cbn [orb] in H. destruct (split_at c_dot t) as [[a b]|] eqn:Es; [|discriminate].
+    apply andb_true_iff in H as [Ha Hb]. pose proof (split_at_app c_dot t a b Es) as Et. subst t.
+    assert (Hdot : str_existsb (Ascii.eqb c_dot) (a +++ String c_dot b) = true).
+    { clear. induction a as [|c r IH]; cbn [append str_existsb]; [rewrite Ascii.eqb_refl; reflexivity|].
+      rewrite IH. apply orb_true_r. }
+    rewrite Hdot. rewrite append_assoc. cbn [append].
+    unfold all_digits in Ha, Hb. apply andb_true_iff in Ha as [Ha1 Ha2]. apply andb_true_iff in Hb as [Hb1 Hb2].
+    apply step_dec; try assumption.
+    destruct rest as [|c r]; [exact I|]. simpl in *. destruct Hd as [Hd|Hd]; subst c; reflexivity.
+Qed.
+
+Lemma render_ast : forall a, wf_ast a = true -> forall rest l, delim rest -> lexes cfg rest l ->
+  lexes cfg (echo_text a +++ rest) (sexp_toks (ast_psexp a) ++ l).
+Proof.
+  apply (ast_ind2 (fun a => wf_ast a = true -> forall rest l, delim rest -> lexes cfg rest l ->
+                            lexes cfg (echo_text a +++ rest) (sexp_toks (ast_psexp a) ++ l))).
+  - intros t Hwf rest l Hd Hr. cbn [echo_text ast_psexp sexp_toks app wf_ast] in *. apply render_const; assumption.
+  - intros n Hwf rest l Hd Hr. cbn [echo_text ast_psexp sexp_toks app wf_ast] in *. apply render_name; assumption.
+  - intros n s Hwf rest l Hd Hr. cbn [echo_text ast_psexp wf_ast] in *. apply andb_true_iff in Hwf as [Hn Hs].
+    apply render_as; assumption.
+  - intros h args IH Hwf rest l Hd Hr. cbn [wf_ast] in Hwf.
+    apply andb_true_iff in Hwf as [Hwf Hargs]. apply andb_true_iff in Hwf as [Hh Hne].
+    cbn [echo_text ast_psexp]. rewrite sexp_toks_cons_map. rewrite !append_assoc. cbn [append app].
+    rewrite <- !app_assoc. cbn [app]. apply step_lp; [exact Hok|].
+    assert (Hargs' : lexes cfg (String " "%char (join " " (map echo_text args) +++ String c_rp rest))
+                           (flat_map (fun y => sexp_toks (ast_psexp y)) args ++ TRP :: l)).
+    { apply step_white; [exact Hspace|].
+      apply (render_join ast echo_text (fun x => sexp_toks (ast_psexp x))); [destruct args; [discriminate|discriminate]| |exact Hr].
+      apply (Forall_forallb_impl ast wf_ast); [|exact Hargs].
+      eapply Forall_impl; [|exact IH]. intros x Hx Hw. apply Hx. exact Hw. }
+    destruct h as [n|n s]; cbn [head_text headp wf_head] in *.
+    + cbn [sexp_toks app]. apply render_name; [exact Hh|apply delim_space|exact Hargs'].
+    + apply andb_true_iff in Hh as [Hn Hs]. apply render_as; [exact Hn|exact Hs|exact Hargs'].
+  - intros t n IH Hwf rest l Hd Hr. cbn [wf_ast] in Hwf. apply andb_true_iff in Hwf as [Ht Hn].
+    cbn [echo_text ast_psexp].
+    assert (T : sexp_toks (SList [SAtom (TRes "!"); ast_psexp t; SAtom (TKey "named"); SAtom (name_tok n)]) ++ l
+                = TLP :: TRes "!" :: sexp_toks (ast_psexp t) ++ (TKey "named" :: name_tok n :: TRP :: l)).
+    { cbn [sexp_toks flat_map app]. rewrite <- !app_assoc. cbn [app]. reflexivity. }
+    rewrite T. clear T. rewrite !append_assoc. cbn [append].
+    apply step_lp; [exact Hok|]. rewrite <- Hbang.
+    match goal with |- lexes _ (String "!" ?r) _ => change (String "!" r) with ("!" +++ r) end.
+    apply step_word; [exact Hok|reflexivity| |reflexivity|apply delim_stops_sym; apply delim_space|].
+    { apply (str_forallb_impl is_simple_char); [exact Hsub|]. vm_compute. reflexivity. }
+    apply step_white; [exact Hspace|]. apply IH; [exact Ht|apply delim_space|]. cbn [append].
+    apply step_white; [exact Hspace|].
+    match goal with |- lexes _ (String ":" (String "n" (String "a" (String "m" (String "e" (String "d" ?r)))))) _ =>
+      change (String ":" (String "n" (String "a" (String "m" (String "e" (String "d" r)))))) with (String c_colon ("named" +++ r)) end.
+    apply step_key; [exact Hok|reflexivity| |apply delim_stops_sym; apply delim_space|].
+    { apply (str_forallb_impl is_simple_char); [exact Hsub|]. vm_compute. reflexivity. }
+    apply step_white; [exact Hspace|]. apply render_name; [exact Hn|apply delim_rp|].
+    apply step_rp; [exact Hok|exact Hr].
+  - intros bs body IHb IH Hwf rest l Hd Hr. cbn [wf_ast] in Hwf.
+    apply andb_true_iff in Hwf as [Hwf Hbody]. apply andb_true_iff in Hwf as [Hne Hbs].
+    cbn [echo_text ast_psexp].
+    assert (T : sexp_toks (SList [SAtom (TRes "let"); SList (map (fun b => SList [SAtom (name_tok (fst b)); ast_psexp (snd b)]) bs); ast_psexp body]) ++ l
+                = TLP :: TRes "let" :: TLP :: flat_map (fun b => sexp_toks (SList [SAtom (name_tok (fst b)); ast_psexp (snd b)])) bs
+                      ++ (TRP :: sexp_toks (ast_psexp body) ++ (TRP :: l))).
+    { cbn [sexp_toks flat_map app]. rewrite flat_map_map. rewrite <- !app_assoc. cbn [app]. reflexivity. }
+    rewrite T. clear T. rewrite !append_assoc. cbn [append].
+    apply step_lp; [exact Hok|]. rewrite <- Hlet.
+    match goal with |- lexes _ (String "l" (String "e" (String "t" ?r))) _ =>
+      change (String "l" (String "e" (String "t" r))) with ("let" +++ r) end.
+    apply step_word; [exact Hok|reflexivity| |reflexivity|apply delim_stops_sym; apply delim_space|].
+    { apply (str_forallb_impl is_simple_char); [exact Hsub|]. vm_compute. reflexivity. }
+    apply step_white; [exact Hspace|]. apply step_lp; [exact Hok|].
+    apply (render_join (string * ast) (fun b => "(" +++ P (fst b) +++ " " +++ echo_text (snd b) +++ ")")
+             (fun b => sexp_toks (SList [SAtom (name_tok (fst b)); ast_psexp (snd b)]))).
+    + destruct bs; discriminate.
+    + assert (HF : Forall (fun b => str_forallb legal_char (fst b) && wf_ast (snd b) = true ->
+                             forall rest l, delim rest -> lexes cfg rest l ->
+                             lexes cfg (("(" +++ P (fst b) +++ " " +++ echo_text (snd b) +++ ")") +++ rest)
+                                   (sexp_toks (SList [SAtom (name_tok (fst b)); ast_psexp (snd b)]) ++ l)) bs).
+      { eapply Forall_impl; [|exact IHb]. intros b Hb Hwfb rest' l' Hd' Hr'. cbn beta in Hb.
+        apply andb_true_iff in Hwfb as [Hn Hw].
+        assert (T : sexp_toks (SList [SAtom (name_tok (fst b)); ast_psexp (snd b)]) ++ l'
+                    = TLP :: name_tok (fst b) :: sexp_toks (ast_psexp (snd b)) ++ (TRP :: l')).
+        { cbn [sexp_toks flat_map app]. rewrite <- !app_assoc. cbn [app]. reflexivity. }
+        rewrite T. clear T. rewrite !append_assoc. cbn [append].
+        apply step_lp; [exact Hok|]. apply render_name; [exact Hn|apply delim_space|]. cbn [append].
+        apply step_white; [exact Hspace|]. apply Hb; [exact Hw|apply delim_rp|]. apply step_rp; [exact Hok|exact Hr']. }
+      apply (Forall_forallb_impl (string * ast) (fun b => str_forallb legal_char (fst b) && wf_ast (snd b))); [exact HF|exact Hbs].
+    + cbn [append]. apply step_white; [exact Hspace|]. apply IH; [exact Hbody|apply delim_rp|].
+      apply step_rp; [exact Hok|exact Hr].
+Qed.
+
+Lemma norm_as_psexp : forall n s, norm_sexp (as_psexp n s) = SList [SAtom (TRes "as"); sym_tok n; sort_sexp s].
+Proof. intros n s. unfold as_psexp. cbn [norm_sexp map norm_token]. rewrite norm_name_tok, norm_sort_psexp. reflexivity. Qed.
+
+Lemma norm_const_tok : forall t, norm_token (const_tok t) = const_tok t.
+Proof. intros t. unfold const_tok. destruct (str_existsb _ t); reflexivity. Qed.
+
+Lemma norm_ast_psexp : forall a, norm_sexp (ast_psexp a) = ast_sexp a.
+Proof.
+  apply (ast_ind2 (fun a => norm_sexp (ast_psexp a) = ast_sexp a)).
+  - intros t. cbn [ast_psexp ast_sexp norm_sexp]. rewrite norm_const_tok. reflexivity.
+  - intros n. cbn [ast_psexp ast_sexp norm_sexp]. rewrite norm_name_tok. reflexivity.
+  - intros n s. cbn [ast_psexp ast_sexp]. apply norm_as_psexp.
+  - intros h args IH. cbn [ast_psexp ast_sexp norm_sexp map]. f_equal. f_equal.
+    + destruct h; cbn [headp head_sexp]; [cbn [norm_sexp]; rewrite norm_name_tok; reflexivity|apply norm_as_psexp].
+    + rewrite map_map. apply map_ext_Forall. exact IH.
+  - intros t n IH. cbn [ast_psexp ast_sexp norm_sexp map norm_token]. rewrite IH, norm_name_tok. reflexivity.
+  - intros bs body IHb IH. cbn [ast_psexp ast_sexp norm_sexp map norm_token]. rewrite IH. f_equal. f_equal. f_equal. f_equal.
+    rewrite map_map. apply map_ext_Forall. eapply Forall_impl; [|exact IHb].
+    intros b Hb. cbn [norm_sexp map]. rewrite norm_name_tok. cbn beta in Hb. rewrite Hb. reflexivity.
+Qed.
+
+Lemma atoms_as_psexp : forall n s, atoms_ok (as_psexp n s) = true.
+Proof. intros n s. unfold as_psexp. cbn [atoms_ok forallb atom_tokenb]. rewrite atoms_name_tok, atoms_sort_psexp. reflexivity. Qed.
+
+Lemma atoms_const_tok : forall t, atom_tokenb (const_tok t) = true.
+Proof. intros t. unfold const_tok. destruct (str_existsb _ t); reflexivity. Qed.
+
+Lemma atoms_ast_psexp : forall a, atoms_ok (ast_psexp a) = true.
+Proof.
+  apply (ast_ind2 (fun a => atoms_ok (ast_psexp a) = true)).
+  - intros t. apply atoms_const_tok.
+  - intros n. apply atoms_name_tok.
+  - intros n s. apply atoms_as_psexp.
+  - intros h args IH. cbn [ast_psexp atoms_ok forallb].
+    assert (Hh : atoms_ok (headp h) = true) by (destruct h; [apply atoms_name_tok|apply atoms_as_psexp]).
+    rewrite Hh. cbn [andb]. rewrite forallb_forall. intros x Hx.
+    apply in_map_iff in Hx as [y [E Hy]]. subst x. rewrite Forall_forall in IH. apply IH. exact Hy.
+  - intros t n IH. cbn [ast_psexp atoms_ok forallb atom_tokenb]. rewrite IH, atoms_name_tok. reflexivity.
+  - intros bs body IHb IH. cbn [ast_psexp atoms_ok forallb atom_tokenb]. rewrite IH. rewrite andb_true_r. cbn [andb].
+    rewrite forallb_forall. intros x Hx. apply in_map_iff in Hx as [b [E Hb]]. subst x.
+    cbn [atoms_ok forallb]. rewrite atoms_name_tok. rewrite Forall_forall in IHb. rewrite (IHb b Hb). reflexivity.
+Qed.
+
+Theorem echo_roundtrip_cfg : forall a, wf_ast a = true ->
+  snd (echo repaired a) = false /\
+  exists e, read_sexps cfg (fst (echo repaired a)) = Some [e] /\ norm_sexp e = ast_sexp a.
+Proof.
+  intros a Hwf. rewrite echo_is_text. cbn [fst snd]. split; [reflexivity|].
+  exists (ast_psexp a). split; [|apply norm_ast_psexp].
+  apply read_from_lexes; [apply atoms_ast_psexp|].
+  pose proof (render_ast a Hwf EmptyString [] I (lexes_nil cfg)) as H.
+  rewrite app_empty_r, app_nil_r in H. exact H.
+Qed.
+
 (* the theorem for one lexer *)
 Theorem term_roundtrip_cfg : forall env t, wf_term t = true ->
   exists e, read_sexps cfg (print_term repaired env t) = Some [e] /\ norm_sexp e = term_sexp env t.
@@ -517,6 +809,20 @@ Theorem term_roundtrip_std : forall env t, wf_term std_cfg t = true ->
   exists e, read_sexps std_cfg (print_term repaired env t) = Some [e] /\ norm_sexp e = term_sexp env t.
 Proof.
   apply (term_roundtrip_cfg std_cfg std_cfg_ok simple_sub_std repaired_covers_std); reflexivity.
+Qed.
+
+Theorem echo_roundtrip_std : forall a, wf_ast a = true ->
+  snd (echo repaired a) = false /\
+  exists e, read_sexps std_cfg (fst (echo repaired a)) = Some [e] /\ norm_sexp e = ast_sexp a.
+Proof.
+  apply (echo_roundtrip_cfg std_cfg std_cfg_ok simple_sub_std repaired_covers_std); reflexivity.
+Qed.
+
+Theorem echo_roundtrip_osmt : forall a, wf_ast a = true ->
+  snd (echo repaired a) = false /\
+  exists e, read_sexps osmt_cfg (fst (echo repaired a)) = Some [e] /\ norm_sexp e = ast_sexp a.
+Proof.
+  apply (echo_roundtrip_cfg osmt_cfg osmt_cfg_ok simple_sub_osmt repaired_covers_osmt); reflexivity.
 Qed.
 
 Theorem term_roundtrip_osmt : forall env t, wf_term osmt_cfg t = true ->
